@@ -71,6 +71,12 @@ Theorem C01_dot_flag_groups_refuted :
 Proof. exact dot_flag_groups_stripped. Qed.
 Print Assumptions C01_dot_flag_groups_refuted.
 
+(* refuted: [Aa], printed (?i:A) by the optimiser, comes out as A (known finding
+   C01-casefold-group-stripped) *)
+Theorem C01_casefold_group_refuted : final_passes ($"(?i:A)b") = Ok ($"Ab").
+Proof. exact casefold_group_stripped. Qed.
+Print Assumptions C01_casefold_group_refuted.
+
 (* THE REFINEMENT STATEMENT.  For every program (any nesting of blocks, any markers, any stored
    names, cmdline blocks, prefixes, suffixes, flags), every optimiser [join] and every notion of
    meaning (A, alternation, concatenation, [Den] for texts, [DenSeq] for texts that may be
